@@ -168,6 +168,9 @@ pub struct GenCfg {
     /// no resources at all: only dependencies / barriers order things
     pub p_unrelated: u64,
     pub max_batch_n: u64,
+    /// a universe of about a hundred distinct resources (dynamic ids up to 17); only for engines
+    /// that do not fetch (plan, invariance)
+    pub many_res: bool,
 }
 impl GenCfg {
     pub fn base() -> GenCfg {
@@ -188,6 +191,7 @@ impl GenCfg {
             funnel: false,
             p_unrelated: 10,
             max_batch_n: 3,
+            many_res: false,
         }
     }
     pub fn profile(name: &str) -> GenCfg {
@@ -242,6 +246,13 @@ impl GenCfg {
                 c.p_batch = 4;
                 c.p_tl = 3;
             }
+            "manyres" => {
+                c.many_res = true;
+                c.p_batch = 4;
+                c.p_barrier = 12;
+                c.max_n = 10;
+                c.messy_decl = true;
+            }
             "kf1" => {
                 c.tl_in_batch = true;
                 c.p_batch = 30;
@@ -271,6 +282,11 @@ impl Gen {
         g.nty = 1 + g.rng.below(NTY as u64);
         g.ndy = 1 + g.rng.below(if g.nty <= 2 { NDY } else { 2 });
         g.density = 3 + g.rng.below(6);
+        if g.cfg.many_res {
+            g.nty = NTY as u64;
+            g.ndy = 12 + g.rng.below(6);
+            g.density = 5 + g.rng.below(10);
+        }
         g
     }
     fn name(&mut self, tag: usize) -> String {
